@@ -247,8 +247,9 @@ class C14(Check):
                 refv, norm = sphere.mean_direction(ra2, dec2, None)
                 if float(norm) > 1e-2:
                     got = C.mean()
-                    if float(sphere.separation_xyz(sphere.to_xyz(got.ra, got.dec)[0], refv)) > 1e-13:
-                        bad("mean:stale-after-in-place-update", dict(m=m))
+                    # conditioning: the direction of a short mean vector amplifies rounding by 1/|mean|
+                    if float(sphere.separation_xyz(sphere.to_xyz(got.ra, got.dec)[0], refv)) > 1e-14 + 4e-15 / float(norm) + float(from3d_bound(got.ra[:1], got.dec[:1])[0]):
+                        bad("mean:stale-after-in-place-update", dict(m=m, norm=float(norm), sep=float(sphere.separation_xyz(sphere.to_xyz(got.ra, got.dec)[0], refv)), got=got.data.tolist(), ra=ra2.tolist(), dec=dec2.tolist()))
                 # operands that share memory: consecutive separations along a track, a set against its reverse
                 ref = sphere.separation(ra2[:-1], dec2[:-1], ra2[1:], dec2[1:])
                 got = C[:-1].distance(C[1:]).data
@@ -269,7 +270,7 @@ class C14(Check):
             C = AngularCoordinates(np.column_stack([ra, dec]))
             try:
                 with np.errstate(divide="raise", invalid="raise", over="raise"):  # underflow to zero is harmless
-                    vec = C.to_3d()
+                    vec = np.array(C.to_3d())  # own copy: the harness modifies it
                     vec[:6, :2] = np.where(np.abs(dec[:6, None]) == np.pi / 2, 0.0, vec[:6, :2])  # exact poles: x = y = 0
                     back = AngularCoordinates.from_3d(vec)
                     C.distance(AngularCoordinates([[0.3, np.pi / 2]]))
@@ -290,7 +291,7 @@ class C14(Check):
                     continue
                 got = AngularCoordinates(np.column_stack([ra, dec])).mean(w * scale)
                 evals += m
-                if not np.all(np.isfinite(got.data)) or float(sphere.separation_xyz(sphere.to_xyz(got.ra, got.dec)[0], refv)) > 1e-13:
+                if not np.all(np.isfinite(got.data)) or float(sphere.separation_xyz(sphere.to_xyz(got.ra, got.dec)[0], refv)) > 1e-14 + 4e-15 / float(norm) + float(from3d_bound(got.ra[:1], got.dec[:1])[0]):
                     bad("mean:depends-on-weight-scale", dict(scale=scale, got=got.data.tolist(), m=m))
             out.append(result(HELD, cls=cls, counters=dict(coord_roundtrip_evals=evals), sample=dict(cls=cls)))
             return out
